@@ -763,6 +763,10 @@ def rule_window(ctx, F):
            "the validator accepts window lengths in [%s, %s]; the unchecked RtypeBitmapIter needs at least one "
            "bitmap octet (len >= 3: an empty window makes it index out of bounds) and RFC 4034 allows at most "
            "32 (len <= 34)" % (lo, hi), b.where(bb))
+    ctx.ob(R, b, "every window length in [3, 34] is accepted", lo is not None and hi is not None and lo <= 3 and hi >= 34,
+           "the validator accepts window lengths in [%s, %s] only: RFC 4034 4.1.2 allows 1 to 32 bitmap octets per window "
+           "(3 <= len <= 34) and RtypeBitmapBuilder writes such windows -- a bitmap the library composes itself (a type "
+           "whose low octet is 248..255 fills the 32nd bitmap octet) is refused when parsed back" % (lo, hi), b.where(bb))
     fits = False
     for (x, rel, y) in relations(b, bb, F):
         # len <= data.len()
